@@ -104,8 +104,19 @@ class Ctx:
         if head not in self.names:
             return None          # undefined
         v = self.rec.fields[self.names.index(head)]
-        if '.' in ident:
-            raise Unsupported('tera attribute access %r' % ident)
+        for attr in ident.split('.')[1:]:
+            # attribute access on a serialised struct (the context record's nested parts); null / absent -> undefined
+            v = peel(v)
+            if isinstance(v, Adt) and v.name == 'Option':
+                if not isinstance(v.variant, int):
+                    raise Unsupported('tera attribute access below a symbolic option %r' % ident)
+                if v.variant == 0:
+                    return None
+                v = peel(v.fields[0])
+            names = self.I.prog.fields.get(v.name) if isinstance(v, Adt) else None
+            if not names or attr not in names:
+                raise Unsupported('tera attribute access %r' % ident)
+            v = v.fields[names.index(attr)]
         return v
 
 
